@@ -183,14 +183,16 @@ func cmdCheck(args []string) int {
 	if tier == "thorough" {
 		timeout0 = 90
 	}
+	if b, err := strconv.Atoi(os.Getenv("GOVC_BUDGET")); err == nil && b > 0 {
+		// (the self-test runs its must-fail cases with a smaller budget: an
+		// obligation that fails costs the whole budget on every solver)
+		timeout0 = b
+	}
 	run.adaptRenames(eng, gen, timeout0)
 	// generous budgets: obligations are decided in well under a second as a
 	// rule; the budget only matters for the few heavy ones, and running out
 	// of it on an unchanged tree would be a false alarm
-	timeout := 25
-	if tier == "thorough" {
-		timeout = 90
-	}
+	timeout := timeout0
 	outDir := filepath.Join(outDirBase(), "out")
 	// obligations that do not belong to this property are not solved
 	for _, r := range run.results {
